@@ -74,7 +74,7 @@ TIMEOUT = 600.0
 PER_SPEC = 10
 
 KINDS = ["reneg", "resub", "resub2", "swapadd", "swapmul", "tt", "mul1", "add0", "negneg", "resplit", "init_fresh", "init_repeat", "init_clash",
-         "custom", "keep", "asfn", "asfn_diamond", "mul1_fwd", "negneg_fwd", "tt_fwd", "two_out"]
+         "custom", "keep", "asfn", "asfn_diamond", "mul1_fwd", "negneg_fwd", "tt_fwd", "two_out_rl", "two_out_rf"]
 # kind -> what the host generator plants
 PLANT = {"reneg": "neg", "resub": "sub", "resub2": "sub", "swapadd": "add", "swapmul": "mul", "tt": "tt", "mul1": "mul1", "add0": "add0",
          "negneg": "negneg", "resplit": "split", "init_fresh": "sub", "init_repeat": "sub", "init_clash": "sub", "custom": "relu",
@@ -83,7 +83,7 @@ PLANT = {"reneg": "neg", "resub": "sub", "resub2": "sub", "swapadd": "add", "swa
          # composes to the identity is left to tt): what takes over the matched output is a value the rule did not create
          "mul1_fwd": "mul1", "negneg_fwd": "negneg", "tt_fwd": "tt",
          # a pattern with two OUTPUT NODES (neither is in the other's backward slice)
-         "two_out": "addmul"}
+         "two_out_rl": "addmul_rl", "two_out_rf": "addmul_rf"}
 STRATA = ["flat", "cf", "fn", "cf+fn", "cfonly"]   # cfonly: instances only inside If/Loop bodies, outer values named val_0/val_1
 CLASH = "c07_zero"
 
@@ -118,7 +118,8 @@ def keeps_nodes(kind):
 
 def _sizes(tier):
     """(#pairs of the first block of kinds, #pairs of the second block)."""
-    return (400, 130) if tier == "quick" else (12000, 3900)
+    full_round = len(KINDS) * len(STRATA) * 4       # every (kind, stratum, k) once
+    return (max(400, full_round), 130) if tier == "quick" else (max(12000, 30 * full_round), 3900)
 
 
 def thresholds(tier):
@@ -186,7 +187,7 @@ def pattern_ast(kind):
         return {"nodes": [N("Neg", [V("x")])], "outs": [["o", 0, 0]]}
     if kind in ("resub", "resub2", "init_fresh", "init_repeat", "init_clash") or kind in MULTI_CONST_KINDS:
         return {"nodes": [N("Sub", [V("x"), V("y")])], "outs": [["o", 0, 0]]}
-    if kind == "two_out":
+    if kind in ("two_out_rl", "two_out_rf"):
         return {"nodes": [N("Add", [V("x"), V("y")]), N("Mul", [V("x"), V("z")])], "outs": [["o", 0, 0], ["o", 1, 0]]}
     if kind == "swapadd":
         return {"nodes": [N("Add", [V("x"), V("y")])], "outs": [["o", 0, 0]]}
@@ -275,7 +276,7 @@ def make_rule(kind, notes=None):
         rep, cond = (lambda op, x, y, **_: mark(op.Sub(x, y))), guard
     elif kind == "resub2":   # two new nodes: the intermediate gets an automatic name (val_0, ...)
         rep, cond = (lambda op, x, y, **_: mark(op.Sub(op.Identity(x), op.Identity(y)))), guard
-    elif kind == "two_out":
+    elif kind in ("two_out_rl", "two_out_rf"):
         rep, cond = (lambda op, x, y, z, **_: mark((op.Add(y, x), op.Mul(z, x)))), guard
     elif kind == "swapadd":
         rep, cond = (lambda op, x, y, **_: mark(op.Add(y, x))), guard
